@@ -3,21 +3,24 @@ package drv
 import (
 	"fmt"
 	"sort"
+	"strings"
 	"time"
 )
 
 // WinCfg is the configuration part of a window-family scenario (times in ticks).
 type WinCfg struct {
-	Kind   string `json:"kind"` // tumbling | sliding | session
-	Size   int64  `json:"size"` // size (tumbling/sliding) or timeout (session)
-	Slide  int64  `json:"slide"`
-	MOO    int64  `json:"moo"`
-	AL     int64  `json:"al"`
-	Unit   int64  `json:"unit"`   // milliseconds per tick
-	Groups int    `json:"groups"` // number of group values; group of row id = id mod Groups
-	Base   int64  `json:"base"`   // offset added to every timestamp, in ticks (multiple of size*slide)
-	Ahead  bool   `json:"ahead"`  // base := now+20h (event time legitimately ahead of the wall clock)
-	Idle   int64  `json:"idle"`   // IDLETIMEOUT in milliseconds (0: unset); such scenarios carry wall-clock times (µs) in add / deliver events
+	Kind    string `json:"kind"` // tumbling | sliding | session
+	Size    int64  `json:"size"` // size (tumbling/sliding) or timeout (session)
+	Slide   int64  `json:"slide"`
+	MOO     int64  `json:"moo"`
+	AL      int64  `json:"al"`
+	Unit    int64  `json:"unit"`    // milliseconds per tick
+	Groups  int    `json:"groups"`  // number of group values; group of row id = id mod Groups
+	Base    int64  `json:"base"`    // offset added to every timestamp, in ticks (multiple of size*slide)
+	Ahead   bool   `json:"ahead"`   // base := now+20h (event time legitimately ahead of the wall clock)
+	FloatTs bool   `json:"floatts"` // hand the timestamp in as a float64 (as a JSON decoder does): the same instant
+	TwoCol  bool   `json:"twocol"`  // group by TWO columns g, h: a step's group "a/R1" is handed in as g = "a", h = "R1" and reported as "a/R1"
+	Idle    int64  `json:"idle"`    // IDLETIMEOUT in milliseconds (0: unset); such scenarios carry wall-clock times (µs) in add / deliver events
 }
 
 // WinStep is one scenario step.
@@ -64,6 +67,9 @@ func WinSQL(c WinCfg) string {
 	if c.Idle > 0 {
 		with += fmt.Sprintf(", IDLETIMEOUT='%dms'", c.Idle)
 	}
+	if c.TwoCol {
+		return "SELECT g, h, count(*) AS c, sum(v) AS s, collect(id) AS ids, window_start() AS ws, window_end() AS we FROM stream GROUP BY g, h, " + w + " WITH (" + with + ")"
+	}
 	return "SELECT g, count(*) AS c, sum(v) AS s, collect(id) AS ids, window_start() AS ws, window_end() AS we FROM stream GROUP BY g, " + w + " WITH (" + with + ")"
 }
 
@@ -96,6 +102,9 @@ func projectRow(r map[string]any, unit, base int64) Ev {
 		e["g"] = g
 	} else {
 		e["g"] = fmt.Sprintf("?%v", r["g"])
+	}
+	if h, ok := r["h"]; ok { // two-column key
+		e["g"] = fmt.Sprintf("%v/%v", e["g"], h)
 	}
 	for _, k := range []string{"ws", "we"} {
 		if n, ok := toI64(r[k]); ok {
@@ -234,7 +243,18 @@ func runWin(sc WinScenario) (evs []Ev, inconclusive string) {
 			if st.Fut == 1 {
 				tsms = time.Now().Add(40 * time.Hour).UnixMilli() // beyond now+MOO+24h, yet within 24h of an event time running 20h ahead
 			}
-			s.Emit(map[string]any{"id": st.ID, "ts": tsms, "g": g, "v": v})
+			row := map[string]any{"id": st.ID, "ts": tsms, "g": g, "v": v}
+			if sc.Cfg.FloatTs {
+				row["ts"] = float64(tsms)
+			}
+			if sc.Cfg.TwoCol {
+				if k := strings.Index(g, "/"); k >= 0 {
+					row["g"], row["h"] = g[:k], g[k+1:]
+				} else {
+					row["h"] = "-"
+				}
+			}
+			s.Emit(row)
 			n := nAdd
 			if !in.WaitFor(T, func() bool { return in.C("proc.item") >= n }) {
 				return in.Events(), "add not processed"
@@ -244,6 +264,13 @@ func runWin(sc WinScenario) (evs []Ev, inconclusive string) {
 			}
 			if !sc.Burst && !in.WaitFor(T, delivered) { // late updates are sent from inside Add
 				return in.Events(), "late update not consumed"
+			}
+		case "mtrig":
+			// the application flushes the window by hand (TriggerWindow): whatever is open is delivered now
+			in.Log(Ev{"tr": sc.Tr, "e": "mtrig"})
+			s.TriggerWindow()
+			if !in.WaitFor(T, delivered) {
+				return in.Events(), "manual flush not consumed"
 			}
 		case "trig":
 			if !in.WaitFor(T, func() bool { return in.NWaiting(p+".trig") > 0 }) {
